@@ -16,6 +16,7 @@ type heldMutex struct {
 	Key  string
 	Mon  *Monitor
 	Read bool
+	Inherited bool // held by the caller on entry (`holds` contract): not released here
 }
 
 type deferred struct {
